@@ -377,6 +377,16 @@ def t_c04_class_members() -> Iterator[Dict[str, Any]]:
         else:
             yield project([mod("p", pkg=True), mod("a", 1, ops=diamond),
                            mod("b", 1, ops=flat(frm("a", "D", lvl=1), use))], "C04", members="diamond", where=where)
+    # a member inherited through a class while the module has a top-level object of the same name: attribute access on a class
+    # does not see the module's globals
+    shadow = flat(cls("Inner", body=[fn("top")]), fn("m"), cls("OuterA", body=flat(cls("Inner", body=[fn("nested")]), fn("m"))), cls("OuterB", "OuterA"))
+    for where in ("same", "other"):
+        use = flat(cls("K", "OuterB.Inner"), alias("am", "OuterB.m"), alias("ai", "OuterB.Inner"))
+        if where == "same":
+            yield project([mod("p", pkg=True), mod("a", 1, ops=flat(shadow, use))], "C04", members="module-level-namesake", where=where)
+        else:
+            yield project([mod("p", pkg=True), mod("a", 1, ops=shadow), mod("b", 1, ops=flat(frm("a", "OuterB", lvl=1), cls("Inner"), use))],
+                          "C04", members="module-level-namesake", where=where)
     chain = flat(cls("Base", body=flat(cls("In"), var("v"))), cls("Mid", "Base"), cls("Leaf", "Mid"))
     yield project([mod("p", pkg=True), mod("a", 1, ops=chain), mod("b", 1, ops=flat(frm("a", "Leaf", lvl=1), cls("X", "Leaf.In"), alias("vv", "Leaf.v")))],
                   "C04", members="chain")
